@@ -109,3 +109,144 @@ def _(self: "ElectronicControlUnit", delta_time: "real", callback: "func", cooki
                    and self._timer_events[j]['callback'] == old(self._timer_events[j]['callback'])
                    and self._timer_events[j]['delta_time'] == old(self._timer_events[j]['delta_time']), 0, n0))
     ensures("C12.add.wake", len(trace) == old(len(trace)) + 1, trace[-1].fn == fn("ElectronicControlUnit._job_thread_wakeup"))
+
+
+# ------------------------------------------------------------------ removal of registrations (C12)
+# kept(j) = number of registrations among the first j that do NOT carry the callback; the result is exactly the kept
+# registrations, in order: result[kept(j)] is the j-th old registration whenever that one is kept.
+
+@unit("j1939.electronic_control_unit:ElectronicControlUnit.remove_timer", props=["C12", "C16"])
+def _(self: "ElectronicControlUnit", callback: "func"):
+    requires(inv_ecu(self))
+    opaque("ElectronicControlUnit._job_thread_wakeup")
+    let("n", len(self._timer_events))
+    invariant(1, _i1 <= n, len(_l1) == n, len(trace) == old(len(trace)),
+              forall(lambda a, b: implies(0 <= a and a < b and b < n, old(self._timer_events[a]) != old(self._timer_events[b]))),
+              forall(lambda j: _l1[j] == old(self._timer_events[j]) and has_key(_l1[j], 'callback')
+                     and _l1[j]['callback'] == old(self._timer_events[j]['callback']), 0, n),
+              len(self._timer_events) == count(lambda k: old(self._timer_events[k]['callback']) != callback, 0, _i1) + n - _i1,
+              forall(lambda j: implies(old(self._timer_events[j]['callback']) != callback,
+                                       self._timer_events[count(lambda k: old(self._timer_events[k]['callback']) != callback, 0, j)]
+                                       == old(self._timer_events[j])), 0, _i1),
+              forall(lambda j: self._timer_events[count(lambda k: old(self._timer_events[k]['callback']) != callback, 0, _i1) + j - _i1]
+                     == old(self._timer_events[j]), _i1, n),
+              # the kept prefix holds no registration that is still to be visited and none with the callback
+              forall(lambda q, m: implies(0 <= q and q < count(lambda k: old(self._timer_events[k]['callback']) != callback, 0, _i1)
+                                          and _i1 <= m and m < n, self._timer_events[q] != old(self._timer_events[m]))),
+              forall(lambda q: self._timer_events[q]['callback'] != callback,
+                     0, count(lambda k: old(self._timer_events[k]['callback']) != callback, 0, _i1)),
+              inv_ecu(self))
+    # afterwards no registration with that callback is left, every other one is kept, in order
+    ensures("C12.remove_all",
+            len(self._timer_events) == count(lambda k: old(self._timer_events[k]['callback']) != callback, 0, n),
+            forall(lambda j: implies(old(self._timer_events[j]['callback']) != callback,
+                                     self._timer_events[count(lambda k: old(self._timer_events[k]['callback']) != callback, 0, j)]
+                                     == old(self._timer_events[j])), 0, n))
+    ensures("C12.remove.none_left", forall(lambda p: self._timer_events[p]['callback'] != callback, 0, len(self._timer_events)))
+    ensures("C12.remove.wake", len(trace) == old(len(trace)) + 1, trace[-1].fn == fn("ElectronicControlUnit._job_thread_wakeup"))
+    ensures("C12.remove.inv", inv_ecu(self))
+
+
+@unit("j1939.electronic_control_unit:ElectronicControlUnit.unsubscribe", props=["C12", "C05"])
+def _(self: "ElectronicControlUnit", callback: "func"):
+    requires(inv_ecu(self))
+    let("n", len(self._subscribers))
+    invariant(1, _i1 <= n, len(_l1) == n, len(trace) == old(len(trace)),
+              forall(lambda a, b: implies(0 <= a and a < b and b < n, old(self._subscribers[a]) != old(self._subscribers[b]))),
+              forall(lambda j: _l1[j] == old(self._subscribers[j]) and has_key(_l1[j], 'cb')
+                     and _l1[j]['cb'] == old(self._subscribers[j]['cb']), 0, n),
+              len(self._subscribers) == count(lambda k: old(self._subscribers[k]['cb']) != callback, 0, _i1) + n - _i1,
+              forall(lambda j: implies(old(self._subscribers[j]['cb']) != callback,
+                                       self._subscribers[count(lambda k: old(self._subscribers[k]['cb']) != callback, 0, j)]
+                                       == old(self._subscribers[j])), 0, _i1),
+              forall(lambda j: self._subscribers[count(lambda k: old(self._subscribers[k]['cb']) != callback, 0, _i1) + j - _i1]
+                     == old(self._subscribers[j]), _i1, n),
+              # the kept prefix holds no registration that is still to be visited and none with the callback
+              forall(lambda q, m: implies(0 <= q and q < count(lambda k: old(self._subscribers[k]['cb']) != callback, 0, _i1)
+                                          and _i1 <= m and m < n, self._subscribers[q] != old(self._subscribers[m]))),
+              forall(lambda q: self._subscribers[q]['cb'] != callback,
+                     0, count(lambda k: old(self._subscribers[k]['cb']) != callback, 0, _i1)),
+              inv_ecu(self))
+    # afterwards no registration with that callback is left, every other one is kept, in order
+    ensures("C12.unsub_all",
+            len(self._subscribers) == count(lambda k: old(self._subscribers[k]['cb']) != callback, 0, n),
+            forall(lambda j: implies(old(self._subscribers[j]['cb']) != callback,
+                                     self._subscribers[count(lambda k: old(self._subscribers[k]['cb']) != callback, 0, j)]
+                                     == old(self._subscribers[j])), 0, n))
+    ensures("C12.unsub.none_left", forall(lambda p: self._subscribers[p]['cb'] != callback, 0, len(self._subscribers)))
+    ensures("C12.unsub.silent", len(trace) == old(len(trace)))
+    ensures("C12.unsub.inv", inv_ecu(self))
+
+
+# ------------------------------------------------------------------ the background thread: one pass per iteration (C12)
+# loops: 1 the thread loop (one iteration = link-layer pass + timer pass + sleep), 2 the timer pass, 3 overrun catch-up
+
+def timer_rec_unchanged(r):
+    # the fields of registration r as at the start of this iteration
+    return (r['deadline'] == at_head(r['deadline']) and r['callback'] == at_head(r['callback'])
+            and r['delta_time'] == at_head(r['delta_time']))
+
+
+def registered(ecu, e):
+    return exists(lambda p: ecu._timer_events[p] == e, 0, len(ecu._timer_events))
+
+
+@unit("j1939.electronic_control_unit:ElectronicControlUnit._async_job_thread", props=["C12", "C07"])
+def _(self: "ElectronicControlUnit"):
+    requires(inv_ecu(self))
+    opaque("J1939_21.async_job_thread")
+    queue_get("extern")
+    # proved for the link layer (C07.progress): the pass returns a wake-up in (now, now + 5]
+    callout_assume("J1939_21.async_job_thread(now) returns a time in (now, now+5] (obligation C07.progress.21)",
+                   now < ret and ret <= now + 5, on=fn("J1939_21.async_job_thread"))
+    invariant(1, inv_ecu(self))
+    # ---- timer pass
+    invariant(2, inv_ecu(self), _i2 <= len(_l2), next_wakeup <= now + 5,
+              forall(lambda j: has_keys(_l2[j], 'callback', 'deadline', 'delta_time', 'cookie'), 0, len(_l2)),
+              # visited registrations that are still registered: the wake-up is not later than their deadline
+              forall(lambda j: implies(registered(self, _l2[j]), next_wakeup <= _l2[j]['deadline']), 0, _i2))
+    invariant(3, inv_ecu(self), registered(self, event),
+              steps(at_entry(event['deadline']), event['delta_time'], event['deadline']),
+              event['deadline'] == at_entry(event['deadline']) or event['deadline'] - event['delta_time'] < now,
+              event['delta_time'] == at_entry(event['delta_time']),
+              len(trace) == at_entry(len(trace)),
+              forall(lambda p: implies(self._timer_events[p] != event,
+                                       self._timer_events[p]['deadline'] == at_entry(self._timer_events[p]['deadline'])),
+                     0, len(self._timer_events)))
+    # a registration is called exactly when it is due, once, with its cookie
+    body_ensures(2, "C12.pass.due",
+                 implies(not at_head(registered(self, event)), len(trace) == at_head(len(trace))),
+                 # no-early: not yet due -> not called, untouched, and the thread wakes up in time for it
+                 implies(at_head(registered(self, event)) and at_head(event['deadline']) > now,
+                         len(trace) == at_head(len(trace)) and event['deadline'] == at_head(event['deadline'])
+                         and next_wakeup <= event['deadline'] and registered(self, event)),
+                 implies(at_head(registered(self, event)) and at_head(event['deadline']) <= now,
+                         len(trace) == at_head(len(trace)) + 1 and trace[-1].fn == at_head(event['callback'])
+                         and trace[-1].n == 1 and trace[-1].a0 == at_head(event['cookie'])))
+    # periodic (callback returned True): advanced by whole periods to the first instant >= now (no drift); one-shot: removed
+    body_ensures(2, "C12.pass.rearm",
+                 implies(at_head(registered(self, event)) and at_head(event['deadline']) <= now and trace[-1].ret == True,
+                         registered(self, event)
+                         and steps(at_head(event['deadline']), event['delta_time'], event['deadline'])
+                         and event['deadline'] >= now
+                         and (event['deadline'] == at_head(event['deadline']) or event['deadline'] - event['delta_time'] < now)
+                         and next_wakeup <= event['deadline']),
+                 implies(at_head(registered(self, event)) and at_head(event['deadline']) <= now and not (trace[-1].ret == True),
+                         not registered(self, event)))
+    # independence: no other registration is altered, removed or added by handling this one: the list is unchanged, or
+    # exactly the handled one-shot entry is taken out and the order of all others is kept
+    body_ensures(2, "C12.pass.independence",
+                 forall(lambda p: implies(self._timer_events[p] != event, timer_rec_unchanged(self._timer_events[p])),
+                        0, len(self._timer_events)),
+                 len(self._timer_events) == at_head(len(self._timer_events))
+                 or len(self._timer_events) == at_head(len(self._timer_events)) - 1,
+                 implies(len(self._timer_events) == at_head(len(self._timer_events)),
+                         forall(lambda p: self._timer_events[p] == at_head(self._timer_events[p]), 0, len(self._timer_events))),
+                 implies(len(self._timer_events) == at_head(len(self._timer_events)) - 1,
+                         0 <= last_removed_index() and last_removed_index() <= len(self._timer_events)
+                         and at_head(self._timer_events[last_removed_index()]) == event
+                         and forall(lambda p: self._timer_events[p] == at_head(self._timer_events[p]), 0, last_removed_index())
+                         and forall(lambda p: self._timer_events[p] == at_head(self._timer_events[p + 1]),
+                                    last_removed_index(), len(self._timer_events))))
+    # the thread sleeps only for a positive time that ends no later than the earliest deadline it computed
+    callout_check("C12.sleep", implies(ev.fn == fn("queue.Queue.get"), ev.r2 > 0 and ev.r2 <= next_wakeup - now))
